@@ -6,7 +6,7 @@ MANIFEST = dict(
     text='Theorems in coq/Properties/C05*.v (never early for any tick size / sweep lag; zero timeout answers at once and queues nothing; tombstone exclusion grant vs timeout; no waiter is lost by a sweep that lags fewer than 7 s behind, exact firing time under regular schedules, without any panic hypothesis for core runs (C05_nopanic.v, from the heap invariant)) are machine-checked over the engine model; tie = differential correspondence with the manual clock (deadlines, re-check counters via reference counts, long-table migration) ; monitor = reply time window on implementation traces. Millisecond waits are outside the model (real-time behaviour; see DESIGN.md).',
     note="Trusted: Coq kernel; hand-written model validated by the correspondence check of the same run; extraction (ExtrOcamlBasic only); harness + hooks; sequential schedules at request/sweep granularity, one shard, manual clock (sweeper driver loops replayed by the harness); see evidence trusted_base for the full list of modelled-not-verified parts.",
 )
-PROFILES = [("timeouts", 0.5), ("longwait", 0.12), ("waiters", 0.18), ("core", 0.2)]
+PROFILES = [("timeouts", 0.5), ("longwait", 0.12), ("waiters", 0.18), ("core", 0.2), ("schedsweep", 0.08)]
 MONITORS = ['C05', 'PANIC']
 
 
